@@ -75,15 +75,16 @@ class Item(object):
 
 _SLOW = {}      # clause -> number of instances the solver gave up on (per process)
 _SPENT = [0.0]  # solver seconds spent on obligations that did not discharge (per process)
-GIVE_UP_AFTER_S = 240
+GIVE_UP_AFTER_S = 150
 
 
 def discharge(item, timeout_ms, second_opinion=False):
     if _SPENT[0] > GIVE_UP_AFTER_S:
         # minutes have gone into obligations the solver cannot decide: the tree is outside what the proofs cover;
         # the remaining obligations get a short budget so that the check still ends in reasonable time
-        timeout_ms = min(timeout_ms, 2000)
+        timeout_ms = min(timeout_ms, 1000)
         second_opinion = False
+        item.extra['no_slice'] = True
     if _SLOW.get(item.clause, 0) >= 2:
         # the clause is already undecided twice in this process: further instances get a short budget
         # (the verdict for the clause cannot become "discharged" any more)
@@ -114,7 +115,7 @@ def _discharge(item, timeout_ms, second_opinion=False):
     r, m, dt = Z.check(asserts, timeout_ms, want_model=True)
     item.seconds = dt
     item.by = 'z3-%s' % z3.get_version_string()
-    if r == 'unknown':
+    if r == 'unknown' and not item.extra.get('no_slice'):
         # cone-of-influence slice: only what shares symbols with the negated goal
         neg = Z.Not(item.goal)
         sl = Z.cone(Z.AXIOMS.terms() + list(item.assertions), [neg]) if Z.symbols(neg) else []
